@@ -269,6 +269,82 @@ class Prop(SeqProp):
             core.cleanup_dir(d)
         return out
 
+    # ---- oracle-only scenario: a child's create() lands inside the parent's flush / exit -------------------------------
+    def extra_scenarios(self, rng, tier):
+        n = 4 if tier == "quick" else 24
+        for _ in range(n):
+            yield {"kind": "create-during-flush", "parent_files": rng.randint(1, 4), "at_removal": None,
+                   "via_exit": rng.random() < 0.5, "seed": rng.randrange(1 << 30)}
+
+    def run_extra(self, desc):
+        if self.scratch is None:
+            self.scratch = core.scratch_dir()
+        return core.call_with_alarm(lambda: self._create_during_flush(desc), 60.0)
+
+    def _create_during_flush(self, desc):
+        """the parent lists k files and flushes (explicitly or by leaving the context); while its j-th `os.remove` is in
+        progress a forked child creates one more file.  Afterwards (the child is idle again) nothing of the pool may be
+        left once the context has been left."""
+        from windpyutils import files as files_mod
+        from windpyutils.files import TmpPool
+        rnd = random.Random(desc["seed"])
+        d = os.path.join(self.scratch, f"pool{random.getrandbits(40)}")
+        os.mkdir(d)
+        ctx = multiprocessing.get_context("fork")
+        k = desc["parent_files"]
+        j = rnd.randint(1, k) if desc["at_removal"] is None else desc["at_removal"]
+        a, b = ctx.Pipe()
+        pool = TmpPool(d, multi_proc=True)
+        pool.__enter__()
+        proc = None
+        real_remove = os.remove
+        state = {"n": 0, "child_path": None}
+
+        class OSProxy:
+            def __getattr__(self, name):
+                return getattr(os, name)
+
+            @staticmethod
+            def remove(p):
+                state["n"] += 1
+                if state["n"] == j and state["child_path"] is None:
+                    a.send(("create",))
+                    if a.poll(20):
+                        rep = a.recv()
+                        state["child_path"] = rep[1] if rep[0] == "ret" else "?"
+                return real_remove(p)
+
+        try:
+            for _ in range(k):
+                pool.create()
+            proc = ctx.Process(target=child_main, args=(pool, b), daemon=True)
+            proc.start()
+            files_mod.os = OSProxy()
+            try:
+                if desc["via_exit"]:
+                    pool.__exit__(None, None, None)
+                else:
+                    pool.flush()
+                    pool.__exit__(None, None, None)
+            finally:
+                files_mod.os = os
+            left = sorted(os.listdir(d))
+            if left:
+                return (f"{k} files listed, a child created one more during the parent's removal #{j} inside "
+                        f"{'__exit__' if desc['via_exit'] else 'flush()'}: after leaving the context {len(left)} file(s) still exist")
+            return None
+        finally:
+            files_mod.os = os
+            try:
+                a.send(("quit",))
+            except Exception:
+                pass
+            if proc is not None:
+                proc.join(2)
+                if proc.is_alive():
+                    proc.kill(); proc.join(2)
+            core.cleanup_dir(d)
+
     # ---- oracle -----------------------------------------------------------------------------------------------------------
     def oracle(self, case, impl_out):
         if case.ops and case.ops[0].startswith("fp_"):
